@@ -83,6 +83,11 @@ KANI_RANGES_MULTIPLE = {
 }
 
 PROPS = {
+    "C19": {
+        "level": "proof",
+        "verus": ["c19_config"],
+        "kani": [],
+    },
     "C18": {
         "level": "model_checking",
         "verus": [],
